@@ -24,11 +24,11 @@ func contentOfRaw(raw *sql.DB) (Content, error) {
 		return c, err
 	}
 	type krow struct {
-		id   int64
-		key  []byte
-		typ  int64
-		et   sql.NullInt64
-		ln   sql.NullInt64
+		id  int64
+		key []byte
+		typ int64
+		et  sql.NullInt64
+		ln  sql.NullInt64
 	}
 	var ks []krow
 	for rows.Next() {
@@ -152,4 +152,39 @@ func ApplyThroughCommandLayer(db *redka.DB, args [][]byte) {
 		return
 	}
 	_, _ = cmd.Run(discard{}, verifhook.DB(db))
+}
+
+// recWriter records what a command writes (the reply, token by token).
+type recWriter struct{ b strings.Builder }
+
+func (w *recWriter) WriteAny(v any)              { fmt.Fprintf(&w.b, "any:%v ", v) }
+func (w *recWriter) WriteArray(count int)        { fmt.Fprintf(&w.b, "*%d ", count) }
+func (w *recWriter) WriteBulk(bulk []byte)       { fmt.Fprintf(&w.b, "$%x ", bulk) }
+func (w *recWriter) WriteBulkString(bulk string) { fmt.Fprintf(&w.b, "$%x ", bulk) }
+func (w *recWriter) WriteError(msg string)       { fmt.Fprintf(&w.b, "-%s ", msg) }
+func (w *recWriter) WriteInt(num int)            { fmt.Fprintf(&w.b, ":%d ", num) }
+func (w *recWriter) WriteInt64(num int64)        { fmt.Fprintf(&w.b, ":%d ", num) }
+func (w *recWriter) WriteNull()                  { w.b.WriteString("_ ") }
+func (w *recWriter) WriteRaw(data []byte)        { fmt.Fprintf(&w.b, "raw:%x ", data) }
+func (w *recWriter) WriteString(str string)      { fmt.Fprintf(&w.b, "+%s ", str) }
+func (w *recWriter) WriteUint64(num uint64)      { fmt.Fprintf(&w.b, ":%d ", num) }
+
+// CommandOp is a wire command executed in-process through the server's own parse and run code
+// on the plain handle (what the server does for a command outside MULTI); its result is the
+// reply it writes.  write says whether it can change the database.
+func CommandOp(write bool, args ...string) *Op {
+	return &Op{Name: "cmd:" + strings.ToUpper(args[0]), Tok: "cmd " + strings.Join(args, " "), Write: write,
+		RunDB: func(db *redka.DB, x *Exec, op *Op) Res {
+			bs := make([][]byte, len(args))
+			for i, a := range args {
+				bs[i] = []byte(a)
+			}
+			cmd, err := verifhook.Parse(bs)
+			if err != nil {
+				return Res{Val: None, Err: "parse: " + err.Error()}
+			}
+			w := &recWriter{}
+			_, _ = cmd.Run(w, verifhook.DB(db))
+			return ok(strings.TrimSpace(w.b.String()))
+		}}
 }
